@@ -132,40 +132,80 @@ def grids_check(col, _):
                                                                  "observed": [list(a[0].shape), list(b[0].shape)]})
 
 
+class _Broken(Exception):
+    pass
+
+
 def cache_history(col, case):
-    """Real get_tile with download_tile replaced by a counter that writes a synthetic full-size .DEM file."""
+    """The REAL get_tile and download_tile against a cache directory; only the network is replaced (urlopen serves a
+    zip archive with the tile's .DEM member, or breaks off in the middle of the body).  Tiles are shrunk to 6 x 4 pixels."""
+    import io
+    import zipfile
     import typhon.topography as TP
     from typhon.topography import SRTM30
     names = {1: "w020n90", 2: "e020n40"}
+    H, W = 6, 4
+    def content(name):
+        t = 1 if name == names[1] else 2
+        return (np.arange(H * W).reshape(H, W) * 3 + 100 * t).astype(">i2")
     root = tempfile.mkdtemp(prefix="verif-c20-")
-    saved_path, saved_dl = TP._data_path, SRTM30.download_tile
-    downloads = []
+    saved = (TP._data_path, TP.urllib, SRTM30._tile_height, SRTM30._tile_width)
+    started = []
+    fail_next = [False]
+
+    class Body(io.BytesIO):
+        def read(self, *a):
+            if fail_next[0] and self.tell() > 0:
+                raise _Broken("connection lost")
+            return super().read(*(a or (64,)) if fail_next[0] else a)
+
+    class FakeRequest:
+        @staticmethod
+        def urlopen(url, *a, **k):
+            name = url.rstrip("/").split("/")[-1].replace(".dem.zip", "")
+            started.append(name)
+            buf = io.BytesIO()
+            with zipfile.ZipFile(buf, "w") as z:
+                z.writestr(name.upper() + ".DEM", content(name).tobytes())
+            return Body(buf.getvalue())
+
+    class FakeUrllib:
+        request = FakeRequest
     try:
-        TP._data_path = root
-        def fake_download(name):
-            downloads.append(name)
-            synth_tile(name).astype(">i2").tofile(os.path.join(root, (name + ".dem").upper()))
-        SRTM30.download_tile = staticmethod(fake_download)
+        TP._data_path, TP.urllib = root, FakeUrllib
+        SRTM30._tile_height, SRTM30._tile_width = H, W
         hist, exp_dl, final = case["hist"], case["downloads"], case["final"]
-        warm = sorted(set(final) - set(hist)) + [t for t in set(hist) if t in final and t not in exp_dl]
-        for t in set(warm):
-            synth_tile(names[t]).astype(">i2").tofile(os.path.join(root, (names[t] + ".dem").upper()))
-        for t in hist:
+        # a tile is warm (in the cache from the start) iff the model never starts a transfer for it
+        warm = {t for t in final if t not in exp_dl}
+        for t in warm:
+            content(names[t]).tofile(os.path.join(root, (names[t] + ".dem").upper()))
+        for t, outcome in hist:
+            fail_next[0] = outcome == "fail"
             try:
                 y = SRTM30.get_tile(names[t])
+                if outcome == "fail":
+                    col.violation("broken-transfer-went-unnoticed", {"abstract": case})
+                    return
+            except _Broken:
+                if outcome != "fail":
+                    raise
+                continue
             except Exception as ex:
-                col.violation("get_tile-raises-" + type(ex).__name__, {"abstract": case, "observed": repr(ex)[:200]})
+                col.violation("get_tile-raises-" + type(ex).__name__ + ("-after-broken-transfer" if any(o == "fail" for _, o in hist) else ""),
+                              {"abstract": case, "observed": repr(ex)[:200]})
                 return
-            if y.shape != (ROWS, COLS) or not np.array_equal(y[:2, :3], synth_tile(names[t])[:2, :3]):
+            finally:
+                fail_next[0] = False
+            if y.shape != (H, W) or not np.array_equal(y, content(names[t])):
                 col.violation("get_tile-wrong-content", {"abstract": case})
                 return
         col.count(1)
-        if [tile for tile in downloads] != [names[t] for t in exp_dl]:
-            col.violation("tile-downloaded-although-cached" if len(downloads) > len(exp_dl) else "tile-not-downloaded",
-                          {"abstract": case, "expected": [names[t] for t in exp_dl], "observed": downloads})
+        if started != [names[t] for t in exp_dl]:
+            col.violation("tile-downloaded-although-cached" if len(started) > len(exp_dl) else "tile-not-downloaded",
+                          {"abstract": case, "expected": [names[t] for t in exp_dl], "observed": started})
         col.nontrivial.add(json.dumps(case["hist"]) + json.dumps(sorted(warm)))
     finally:
-        TP._data_path, SRTM30.download_tile = saved_path, saved_dl
+        TP._data_path, TP.urllib, SRTM30._tile_height, SRTM30._tile_width = saved
         shutil.rmtree(root, ignore_errors=True)
 
 
@@ -219,8 +259,6 @@ def run(ctx):
     hists = list(res.tagged("CASE"))
     if not hists:
         raise MachineryError("no cache histories")
-    if quick:
-        hists = hists[::4]
     pmap(ctx, cache_history, hists, procs=1)
     ctx.traces += len(cases) + len(hists)
     ctx.sample({k: cases[0][k] for k in ("rect", "r0", "r1", "c0", "c1", "tiles")})
